@@ -21,6 +21,8 @@ CHECKS = {
          "PSL model validated each run; parsed value lists cross-checked natively against the rule text; pattern conjunct fixed true; engine; z3"),
  "C10": ("loadDNSRewrite on symbolic values: short form up to 5/8 bytes, normal form with every response-code and record-type keyword of the dns tables and symbolic values up to 5/8 bytes for the nine handled record types: accepted => published shape (dynamic type by record type, CNAME alone, RRType only with success), rejected => nil, deterministic, no crash",
          "netip.ParseAddr contract stub on symbolic input; dns tables imported natively; engine; z3"),
+ "C05": ("for every enumerated mask pattern, every grammar regular expression of 1..2/3 atoms over 25 atoms and the regular-expression rules of the bundled lists: for ALL URLs up to 12/20 printable bytes and ALL hostnames up to 8/12 bytes, accepted by the compiled pattern => lower-cased URL contains the shortcut",
+         "regexp program encoded as bounded Pike-VM reachability (validated against MatchString each run); rules parsed natively by the real parser; engine; z3"),
  "C16": ("unbounded in the fields the function reads (64-bit option word, 32-bit mask, exception flag fully symbolic under the parser's representation invariant); counterexamples replayed from rule text through the real parser",
          "InvRule on option words (validated natively on the repo's own rule corpus); go/ssa lowering; engine; z3"),
 }
